@@ -19,7 +19,9 @@ Class(c, d, e, shape, plain) ==
     (IF c = "unset" THEN <<>> ELSE << <<"namedtuple_as_dict", c = "yes">> >>)
     \o (IF d = "unset" THEN <<>> ELSE << <<"dialect", << <<"name", "ND">>, <<"namedtuple_as_dict", d = "yes">> >> >> >>)
     \o (IF plain THEN << <<"mixin", "plain">> >> ELSE <<>>) >>
-Shapes == { NTt, <<"opt", NTt>> }
+\* a named tuple with a date element (the engine option must concern the named tuple, not its elements)
+NTd == <<"ntuple", "Pd", << <<"x", <<"int">>, <<"req">> >>, <<"d", <<"date">>, <<"req">> >> >> >>
+Shapes == { NTt, <<"opt", NTt>>, NTd }
 Classes == { Class(c, d, e, s, p) : c \in Tri, d \in Tri, e \in Eng, s \in Shapes, p \in BOOLEAN }
 Init == T = <<"start">> /\ v = <<"nov">> /\ kind = "start"
 Next == \/ kind = "start" /\ T' \in Classes /\ v' = v /\ kind' = "type"
